@@ -51,6 +51,8 @@ def _extension():
             sig = ext.OpDefSig(poly, binary)
         misc = {"k": sym.int(f"o{i}.misc", None, None), "s": "x"} if sym.concretize(sym.bool(f"o{i}.has_misc")) else {}
         e.add_op_def(ext.OpDef(f"Op{i}", sig, sym.str(f"o{i}.descr", 3), misc))
+    # one definition with a docstring-like description (several lines, indented continuation, surrounding blank lines): kept verbatim
+    e.add_op_def(ext.OpDef("Documented", ext.OpDefSig(tys.FunctionType([B], [B])), "\n    First line.\n\n        indented continuation\n    last line  \n\n"))
     nv = sym.concretize(sym.int("n_values", 0, 1))
     for i in range(nv):
         e.add_extension_value(ext.ExtensionValue(f"V{i}", val.Tuple(val.TRUE, val.UnitSum(sym.concretize(sym.int("v.tag", 0, 2)), 3))))
